@@ -73,6 +73,21 @@ fn gen_key_flags(zone: &N, flags: u16) -> ZKey {
     let tag = dnskey.key_tag();
     ZKey { zone: zone.clone(), pair, dnskey, tag }
 }
+/// An attacker key for `zone` whose key tag equals `tag`: fresh ECDSA keys, the tag steered through the flags
+/// field (zone-key bit kept, it is needed to sign). None if the capped search fails.
+fn colliding_key(zone: &N, tag: u16) -> Option<ZKey> {
+    for _ in 0..12 {
+        let (sec, pubk) = generate(&GenerateParams::EcdsaP256Sha256, 257).expect("keygen");
+        let pair = KeyPair::from_bytes(&sec, &pubk).expect("keypair");
+        for f in 0..=0xFFFFu32 {
+            let flags = f as u16;
+            if flags & 0x0100 == 0 || flags & 0x0080 != 0 { continue; }
+            let dnskey = Dnskey::new(flags, pubk.protocol(), pubk.algorithm(), Bytes::copy_from_slice(pubk.public_key().as_ref())).unwrap();
+            if dnskey.key_tag() == tag { return Some(ZKey { zone: zone.clone(), pair, dnskey, tag }); }
+        }
+    }
+    None
+}
 fn now_u32() -> u32 { Serial::now().into_int() }
 fn rec(owner: &N, ttl: u32, d: ZD) -> Rec { Record::new(owner.clone(), Class::IN, Ttl::from_secs(ttl), d) }
 fn nlabels(n: &N) -> u8 { let l = labels_of(n); (if l.first().map(|x| x.as_slice() == b"*").unwrap_or(false) { l.len() - 1 } else { l.len() }) as u8 }
@@ -1206,20 +1221,25 @@ fn main() {
         let z = &w.zones[2];
         let parent = w.zones[1].key.as_ref().unwrap();
         let extra = [gen_key_flags(&z.apex, 256), gen_key_flags(&z.apex, 257)];
-        let all: Vec<&ZKey> = vec![z.key.as_ref().unwrap(), &extra[0], &extra[1]];
+        // a fourth key: not vouched for by any DS, but with the key tag (and algorithm) of the real key
+        let collider = colliding_key(&z.apex, z.key.as_ref().unwrap().tag);
+        out.check(collider.is_some(), "harness_no_colliding_key", "ds_dnskey_step", "no key with a colliding tag found");
+        let mut all: Vec<&ZKey> = vec![z.key.as_ref().unwrap(), &extra[0], &extra[1]];
+        if let Some(c) = collider.as_ref() { all.push(c); }
+        let nk = all.len();
         let dk = |k: &ZKey| rec(&k.zone, 300, ZD::Dnskey(k.dnskey.clone()));
         let dig = |k: &ZKey, dt: DigestAlgorithm| -> Vec<u8> { k.dnskey.digest(&k.zone, dt).unwrap().as_ref().to_vec() };
         let www = nm("www.zone.sec.");
         for _ in 0..(250 * scale) {
             // the DNSKEY RRset
-            let mut set: Vec<usize> = (0..3).filter(|_| r.chance(2, 3)).collect();
-            if set.is_empty() { set.push(r.below(3) as usize); }
+            let mut set: Vec<usize> = (0..nk).filter(|_| r.chance(1, 2)).collect();
+            if set.is_empty() { set.push(r.below(nk as u64) as usize); }
             for i in (1..set.len()).rev() { let j = r.below(i as u64 + 1) as usize; set.swap(i, j); }
             let keyset: Vec<Rec> = set.iter().map(|i| dk(all[*i])).collect();
             // the DS RRset of the parent
             let mut dsw: Vec<String> = vec![]; let mut dsrecs: Vec<Rec> = vec![];
             for _ in 0..(1 + r.below(3)) {
-                let k = all[r.below(3) as usize];
+                let k = all[if r.chance(1, 2) { 0 } else { r.below(nk as u64) as usize }];
                 let dt = *r.pick(&[DigestAlgorithm::SHA256, DigestAlgorithm::SHA256, DigestAlgorithm::SHA1, DigestAlgorithm::SHA384]);
                 let (alg, tag, dtn, d): (u8, u16, u8, Vec<u8>) = match r.below(8) {
                     0 => { let mut d = dig(k, dt); d[3] ^= 1; (13, k.tag, dt.to_int(), d) }          // right key tag, other digest
@@ -1235,9 +1255,9 @@ fn main() {
             // signatures over the DNSKEY RRset
             let mut sgw: Vec<String> = vec![]; let mut sgrecs: Vec<Rec> = vec![];
             for _ in 0..(1 + r.below(3)) {
-                let ki = r.below(3) as usize; let k = all[ki];
+                let ki = r.below(nk as u64) as usize; let k = all[ki];
                 let good = r.chance(2, 3);
-                let sig = if good { sign(k, &keyset) } else { sign(k, &[dk(all[(ki + 1) % 3]), rec(&z.apex, 300, a([1, 2, 3, 4]))]) };
+                let sig = if good { sign(k, &keyset) } else { sign(k, &[dk(all[(ki + 1) % nk]), rec(&z.apex, 300, a([1, 2, 3, 4]))]) };
                 let sig = if good { sig } else { Record::new(z.apex.clone(), Class::IN, sig.ttl(), match sig.data() { ZD::Rrsig(g) => ZD::Rrsig(Rrsig::<Bytes, N>::new(Rtype::DNSKEY, g.algorithm(), g.labels(), g.original_ttl(), g.expiration(), g.inception(), g.key_tag(), g.signer_name().clone(), g.signature().clone()).unwrap()), d => d.clone() }) };
                 if sgrecs.iter().any(|x| x.data() == sig.data()) { continue; }
                 let valid: Vec<String> = if good { set.iter().enumerate().filter(|(_, i)| **i == ki).map(|(p, _)| p.to_string()).collect() } else { vec![] };
@@ -1726,6 +1746,52 @@ fn main() {
             let s2 = verdict(&mut out, &vc, &c2, &www, Rtype::A, &Resp { rcode: Rcode::NOERROR, answer: vec![set_of(z.get(&www, Rtype::A).unwrap())], authority: vec![] });
             if !expect_secure { out.check(s2 != Some(ValidationState::Secure) || sign_real, "secure_dnskey_not_signed_by_ds_key", &c2, "zone with an unvouched DNSKEY RRset treated as secure"); }
         }
+        // an attacker key whose key tag (and algorithm) collide with the key the DS vouches for: the tag filter lets its
+        // signature through, only the DS digest and the signature check under the vouched key stand in the way
+        if let Some(col) = colliding_key(&z.apex, real.tag) {
+            for (what, rrs) in [("colliding attacker key after the real key", vec![dk(real), dk(&col)]), ("colliding attacker key before the real key", vec![dk(&col), dk(real)]),
+                                ("colliding attacker key instead of the real key", vec![dk(&col)])] {
+                for two_sigs in [false, true] {
+                    // one or two attacker signatures (the second over the same data, different randomness)
+                    let mut sigs = vec![sign(&col, &rrs)];
+                    if two_sigs { sigs.push(sign_with(&col, &col.zone, &rrs, nlabels(&z.apex), now_u32() - 7000, now_u32() + 80000)); }
+                    let m = build_msg(9, &z.apex, Rtype::DNSKEY, &Resp { rcode: Rcode::NOERROR, answer: vec![RRset { rrs: rrs.clone(), sigs }], authority: vec![] });
+                    let sc = Script { attack: Attack::None, on_query: 0, pick: 0, raw: vec![(z.apex.clone(), Rtype::DNSKEY.to_int(), m)] };
+                    let vc = ValidationContext::new(w.anchors(), Mock::new(w.clone(), sc));
+                    idx += 1; if !out.wants(idx) { continue; }
+                    for (qn, qt, data) in [(www.clone(), Rtype::A, vec![rec(&www, 300, a([6, 6, 6, 6]))]), (nm("bank.zone.sec."), Rtype::A, vec![rec(&nm("bank.zone.sec."), 300, a([6, 6, 6, 7]))]),
+                                           (z.apex.clone(), Rtype::NS, vec![rec(&z.apex, 300, ns("evil.ins."))])] {
+                        let resp = Resp { rcode: Rcode::NOERROR, answer: vec![RRset { sigs: vec![sign(&col, &data)], rrs: data }], authority: vec![] };
+                        let c = format!("e2e dnskey zone.sec. DNSKEY reply: {} (key tag {} = tag of the DS key), signed only by it{}; {} {} signed by the attacker key", what, col.tag, if two_sigs { " twice" } else { "" }, qn, qt);
+                        out.oracle_case(&c, true, "e2e_dnskey");
+                        let s = verdict(&mut out, &vc, &c, &qn, qt, &resp);
+                        out.check(s != Some(ValidationState::Secure), "secure_dnskey_not_signed_by_ds_key", &c, "answer signed by a key that only shares the key tag with the DS-vouched key accepted");
+                    }
+                }
+            }
+            // control: the colliding key may be present as long as the vouched key signs the RRset
+            let rrs = vec![dk(&col), dk(real)];
+            let m = build_msg(9, &z.apex, Rtype::DNSKEY, &Resp { rcode: Rcode::NOERROR, answer: vec![RRset { sigs: vec![sign(real, &rrs)], rrs }], authority: vec![] });
+            let vc = ValidationContext::new(w.anchors(), Mock::new(w.clone(), Script { attack: Attack::None, on_query: 0, pick: 0, raw: vec![(z.apex.clone(), Rtype::DNSKEY.to_int(), m)] }));
+            let c = "e2e dnskey zone.sec. DNSKEY reply: colliding key present, RRset signed by the DS key; genuine www.zone.sec. A";
+            out.oracle_case(c, true, "e2e_dnskey");
+            let s = verdict(&mut out, &vc, c, &www, Rtype::A, &Resp { rcode: Rcode::NOERROR, answer: vec![set_of(z.get(&www, Rtype::A).unwrap())], authority: vec![] });
+            out.check(s == Some(ValidationState::Secure), "honest_not_secure", c, &format!("{:?}", s.map(st)));
+            // mirror at the DS: a validly signed DS RRset whose only record has the right algorithm and key tag but another digest
+            let d = real.dnskey.digest(&real.zone, DigestAlgorithm::SHA256).unwrap();
+            let mut dv = d.as_ref().to_vec(); dv[0] ^= 0x80;
+            for (what, digest, expect) in [("other digest", dv.clone(), false), ("right digest", d.as_ref().to_vec(), true)] {
+                let dsr = vec![rec(&z.apex, 300, ZD::Ds(Ds::new(real.tag, real.dnskey.algorithm(), DigestAlgorithm::SHA256, Bytes::from(digest)).unwrap()))];
+                let pk = w.zones[1].key.as_ref().unwrap();
+                let m = build_msg(9, &z.apex, Rtype::DS, &Resp { rcode: Rcode::NOERROR, answer: vec![RRset { sigs: vec![sign(pk, &dsr)], rrs: dsr }], authority: vec![] });
+                let vc = ValidationContext::new(w.anchors(), Mock::new(w.clone(), Script { attack: Attack::None, on_query: 0, pick: 0, raw: vec![(z.apex.clone(), Rtype::DS.to_int(), m)] }));
+                let c = format!("e2e dnskey zone.sec. DS reply: algorithm and key tag of the real key, {}; genuine www.zone.sec. A", what);
+                out.oracle_case(&c, true, "e2e_dnskey");
+                let s = verdict(&mut out, &vc, &c, &www, Rtype::A, &Resp { rcode: Rcode::NOERROR, answer: vec![set_of(z.get(&www, Rtype::A).unwrap())], authority: vec![] });
+                if expect { out.check(s == Some(ValidationState::Secure), "honest_not_secure", &c, &format!("{:?}", s.map(st))); }
+                else { out.check(s != Some(ValidationState::Secure), "secure_dnskey_not_signed_by_ds_key", &c, "a DS with another digest authenticated the key"); }
+            }
+        } else { out.check(false, "harness_no_colliding_key", "e2e dnskey", "no key with a colliding tag found"); }
         // the same at the trust anchor
         let rz = &w.zones[0];
         let rreal = rz.key.as_ref().unwrap();
